@@ -157,9 +157,18 @@ def check(repo: Repo, run: Run) -> None:
         elemvar, it, conds = x.a[2][0]
         if it == param(pv.args.args[1].arg) and x.a[1] == elemvar and len(conds) == 1:
             c = conds[0]
-            want = T("cmp", ("==", T("call", (T("attr", (T("attr", (param("self"), "trace_codes")), "get")),
-                                             (T("attr", (elemvar, "eventid")),), ())), const("VFS_LOOKUP")))
-            okf = c == want
+            tc = T("attr", (param("self"), "trace_codes"))
+            eid = T("attr", (elemvar, "eventid"))
+            names = [T("call", (T("attr", (tc, "get")), (eid,), ())), T("call", (T("attr", (tc, "get")), (eid, const("")), ())),
+                     T("call", (T("attr", (tc, "get")), (eid, const(None)), ()))]
+            # name == 'VFS_LOOKUP'   or   name in ('VFS_LOOKUP',) / ['VFS_LOOKUP'] / {'VFS_LOOKUP'}
+            if c.op == "cmp" and c.a[0] == "==" and ((c.a[1] in names and c.a[2] == const("VFS_LOOKUP"))
+                                                     or (c.a[2] in names and c.a[1] == const("VFS_LOOKUP"))):
+                okf = True
+            if c.op == "cmp" and c.a[0] == "in" and c.a[1] in names and (
+                    (c.a[2].op in ("tuple", "list", "set") and c.a[2].a[0] == (const("VFS_LOOKUP"),))
+                    or c.a[2] == const(("VFS_LOOKUP",))):
+                okf = True
     run.ob("R1", "pykdebugparser.traces_parser", "TracesParser.parse_vnodes", "lookup records = window records named VFS_LOOKUP", okf,
            "parse_vnodes does not select exactly the window's records whose table name is VFS_LOOKUP, in order", nontrivial=False)
 
